@@ -436,7 +436,9 @@ func (b *Broker) RegisterPipeline(def Pipeline, opt ...Option) error {
 
 	// Store the pipeline and then update the reference count of the nodes in that pipeline.
 	g.roots.Store(def.PipelineID, pipelineReg)
-	for _, id := range def.NodeIDs {
+	// A node listed more than once is still only referenced by one pipeline, and
+	// is released once when the pipeline is removed (see graphMap.Nodes).
+	for id := range root.flatten() {
 		nodeUsage, ok := b.nodes[id]
 		// We can be optimistic about this as we would have already errored above.
 		if ok {
